@@ -38,15 +38,16 @@ type AScenario struct {
 }
 
 type AOutcome struct {
-	Class      string       `json:"class"` // "" | alloc | invariant
-	Violations []HViolation `json:"violations,omitempty"`
-	Strategy   string
-	ZeroCalls  int // zero-allocation measurements taken
-	Gated      int // measurements dropped because a cache was cleared while measuring
-	Cycles     int
-	Footprint  []int `json:"footprint_first_cycles,omitempty"`
-	HeapEarly  uint64
-	HeapLate   uint64
+	Class         string       `json:"class"` // "" | alloc | invariant
+	Violations    []HViolation `json:"violations,omitempty"`
+	Strategy      string
+	ZeroCalls     int // zero-allocation measurements taken
+	Gated         int // measurements dropped because a cache was cleared while measuring
+	Cycles        int
+	Footprint     []int `json:"footprint_first_cycles,omitempty"`
+	DeepFootprint []int `json:"reachable_bytes_first_cycles,omitempty"`
+	HeapEarly     uint64
+	HeapLate      uint64
 }
 
 var blowupPatterns = []string{`a[ab]{12}[cd]`, `[cd][ab]{10}a[ab]*x`, `ab[ab]{20}c`, `(a|b)*a(a|b){9}`, `[01]*1[01]{11}`, `[ab]*a[ab]{13}c`, `([ab]*)a[ab]{3}c`}
@@ -371,8 +372,8 @@ func runAlloc(sc *AScenario) *AOutcome {
 	}
 
 	// I3/I4 plateau while a fixed cycle repeats
-	var fp []int
-	maxEarly := 0
+	var fp, deepFp []int
+	maxEarly, maxEarlyDeep := 0, 0
 	plateauStart := time.Now()
 	for c := 0; c < sc.Reps; c++ {
 		if c > 12 && time.Since(plateauStart) > 3*time.Second {
@@ -385,6 +386,21 @@ func runAlloc(sc *AScenario) *AOutcome {
 			}
 		}
 		f := footprint(re)
+		if c < 40 || c%8 == 0 {
+			// everything reachable from the value, the state in its single-slot cache and
+			// the borrowed-helper pools, by reflection (I3b)
+			df := deepFootprint(re, re.VerifEngine().VerifLocalState())
+			if c >= 1 && c <= 5 && df > maxEarlyDeep {
+				maxEarlyDeep = df
+			}
+			if c >= 6 && df > maxEarlyDeep+maxEarlyDeep/50+4096 {
+				fail("invariant", fmt.Sprintf("memory reachable from the Regex grows while a fixed cycle repeats: %d bytes after cycle %d, at most %d after cycles 2-6", df, c+1, maxEarlyDeep))
+				break
+			}
+			if c < 8 {
+				deepFp = append(deepFp, df)
+			}
+		}
 		if c < 8 {
 			fp = append(fp, f)
 		}
@@ -407,6 +423,7 @@ func runAlloc(sc *AScenario) *AOutcome {
 	}
 	out.Cycles = sc.Reps
 	out.Footprint = fp
+	out.DeepFootprint = deepFp
 	if sc.Reps > 20 && out.HeapEarly > 0 {
 		out.HeapLate = heapAfterGC()
 		// threshold: generous fixed margin; growth per repetition is what matters
